@@ -108,7 +108,9 @@ def merge_hashes(exe, files):
     files = [f for f in files if os.path.exists(f)]
     if not files:
         return 0
-    r = subprocess.run([exe, "merge-hashes"] + files, stdout=subprocess.PIPE, text=True)
+    env = dict(os.environ)
+    env.update(SAN_ENV)
+    r = subprocess.run([exe, "merge-hashes"] + files, stdout=subprocess.PIPE, stderr=subprocess.DEVNULL, text=True, env=env)
     try:
         return int(r.stdout.strip())
     except ValueError:
